@@ -422,9 +422,10 @@ class FillSystem(H.System):
         model2 = (new_entries, flt2)
         if not res.ok:
             return None, [mk("must_succeed", f"must_succeed|{sb}|{opsig}|{cl}|{exc_sig(res.exc)}", "accepted", res.describe())], False
-        if kind in ("fill", "lshift") and isnan_row(unkey(op[1])):
-            # a dropped (NaN) entry: whether its weight type still promotes the dtype is left open
-            flt2 = np.dtype(obj.dtype).kind == "f"
+        if new_entries == entries:
+            # nothing was entered (NaN value, empty or all-NaN batch): whether the weight type still
+            # promotes the dtype is left open by the statement
+            flt2 = flt or np.dtype(obj.dtype).kind == "f"
             model2 = (new_entries, flt2)
         probs = self.observe_problems(obj, model2)
         for field, e, o in probs:
